@@ -144,6 +144,36 @@ def h_single(ae, R, C, bigbox, F2C_sym):
     return h
 
 
+def h_nan(ae, R, C, which):
+    """a source whose pixel coordinates are undefined (e.g. on the far side of a SIN/TAN projection) must be ignored"""
+    def h(c):
+        c.index_range = (-1, max(R, C) + 1)
+        F2C = real('FWHM2CC')
+        c.assume(F2C.e > z3.RealVal('0.42'))
+        c.assume(F2C.e < z3.RealVal('0.43'))
+        ae.FWHM2CC = F2C
+        wh = WH(1)
+        P = list(wh.P[0])
+        for k in which:
+            P[k] = float('nan')
+        wh.P[0] = tuple(P)
+        for k in (2, 3):
+            if isinstance(P[k], SN):
+                c.assume(P[k].e > 0)
+        tag = 'make_model[%dx%d, undefined %s]' % (R, C, '/'.join(['xo', 'yo', 'sx', 'sy', 'theta'][k] for k in which))
+        try:
+            m = ae.make_model([Src(0)], (R, C), wh)
+        except (core.Unsupported, core.HarnessError, core.Cut, core.Infeasible):
+            raise
+        except Exception as e:
+            c.oblige(tag + ':handled without error', z3.BoolVal(False), info=repr(e))
+            return dict(raised=repr(e))
+        untouched = all(isinstance(m[i, j], float) and m[i, j] == 0.0 for i in range(R) for j in range(C))
+        c.oblige(tag + ':the source is ignored (model untouched)', z3.BoolVal(bool(untouched)))
+        return dict()
+    return h
+
+
 def h_two(ae, R, C):
     def h(c):
         c.index_range = (-1, max(R, C) + 1)
@@ -245,6 +275,15 @@ def replay_case(w):
     hdr['CDELT1'], hdr['CDELT2'] = -1.0 / 180, 1.0 / 180
     hdr['BMAJ'], hdr['BMIN'], hdr['BPA'] = 3.0 / 180, 3.0 / 180, 0.0
     helper = wh.WCSHelper.from_header(hdr)
+    # a catalogue entry on the far side of the projection has undefined pixel coordinates: it must not touch the model
+    far = models.ComponentSource()
+    far.ra, far.dec, far.peak_flux, far.a, far.b, far.pa, far.local_rms = (45.0 + 180.0) % 360, 30.0, 1.0, 60.0, 45.0, 0.0, 0.1
+    try:
+        mfar = real_np.array(ae.make_model([far], (R, C), helper), dtype=float)
+    except Exception as e:
+        return True, 'far-side-source-raises', 'a source 180 deg from the image centre raised %r' % (e,)
+    if not real_np.all(mfar == 0):
+        return True, 'far-side-source-rendered', 'a source 180 deg from the image centre changed %d model pixels (%d NaN)' % (int((mfar != 0).sum()), int(real_np.isnan(mfar).sum()))
     rows = w.get('centres') or [(R - 0.8, 5.0), (0.3, 7.0), (8.0, C - 0.7), (9.5, 0.2), (10.0, 12.0)]
     worst = None
     for (r0, c0) in rows:        # 0-based pixel centre (row, col)
@@ -288,6 +327,9 @@ def run(rep):
         meta.append(('single', R, C))
     plans.append((h_single(ae, 3, 3, False, None), dict(wall_s=900, max_paths=4000)))
     meta.append(('single-small', 3, 3))
+    for which in ((0,), (1,), (0, 1), (0, 1, 2, 3, 4)):
+        plans.append((h_nan(ae, 2, 3, which), dict(wall_s=300)))
+        meta.append(('undefined-coordinates', 2, 3))
     plans.append((h_two(ae, 2, 2), dict(wall_s=600)))
     meta.append(('two', 2, 2))
     plans.append((h_mask(ae, 1, 2, True), dict(wall_s=600)))
